@@ -566,6 +566,74 @@ def sweep_rows(job):
     return out
 
 
+def counter_job(job):
+    d, S_, prog, faultpcs, fail = job
+    tla.write_counter_instance(d, S_, prog, faultpcs, fail)
+    v = tla.verdict(d, workers=2)
+    shutil.rmtree(d, ignore_errors=True)
+    return S_, v
+
+
+def counter_layer(tier, progs, scratch, ctx):
+    """counter abstraction (models/BaneCounter.tla): validated against the full model by comparing reachable state sets for
+    small S, then model checked for every S = C up to a larger bound"""
+    from concurrent.futures import ThreadPoolExecutor
+    quick = tier == "quick"
+    out = dict(verdicts={}, coverage=dict(validated=[], validated_up_to=0, instances={}, states=0, applicable=True))
+    smax_val = 3 if quick else 4
+    sbound = 16 if quick else 32
+    for mask in (True, False):
+        ex = progs[mask]
+        prog = ex["prog"]
+        if not prog or any(op not in ("work", "wait") for op in prog):
+            out["coverage"]["applicable"] = False
+            out["coverage"]["reason"] = "the extracted program contains %r: the counter abstraction only covers work/wait programs" % (sorted(set(prog)),)
+            continue
+        work_pcs = [i + 1 for i, op in enumerate(prog) if op == "work"]
+        fail = ex["abort"] if isinstance(ex["abort"], str) else ("abort" if ex["abort"] else "none")
+        # ---- validation: projection of the full model's reachable states == reachable states of the counter model
+        for s_ in range(1, smax_val + 1):
+            if not mask and s_ == smax_val and not quick:
+                continue
+            d = os.path.join(scratch, "cval_full_%d_%s" % (s_, mask))
+            faults = [(0, 0)] + [(s, p) for s in range(1, s_ + 1) for p in work_pcs]
+            tla.write_instance(d, s_, s_, prog, faults, fail)
+            g = tla.graph(d)
+            shutil.rmtree(d, ignore_errors=True)
+            proj = set()
+            for st in g["nodes"].values():
+                if st["FaultS"] == 0:
+                    for t in range(1, s_ + 1):
+                        proj.add(tla.project_to_counter(st, t, prog))
+                else:
+                    proj.add(tla.project_to_counter(st, st["FaultS"], prog))
+            d2 = os.path.join(scratch, "cval_cnt_%d_%s" % (s_, mask))
+            tla.write_counter_instance(d2, s_, prog, [0] + work_pcs, fail)
+            g2 = tla.graph(d2)
+            shutil.rmtree(d2, ignore_errors=True)
+            cs = set(tla.counter_key(st) for st in g2["nodes"].values())
+            rec = dict(S=s_, mask=mask, full_states=len(g["nodes"]), projected=len(proj), counter_states=len(cs), equal=proj == cs)
+            out["coverage"]["validated"].append(rec)
+            ctx.count("counter_validations")
+            if proj != cs:
+                ctx.harness_errors.append(dict(clause="counter_validation", case=rec,
+                                               tb="counter abstraction and full model disagree: only in projection %r, only in counter %r" % (
+                                                   list(proj - cs)[:2], list(cs - proj)[:2])))
+            else:
+                out["coverage"]["validated_up_to"] = max(out["coverage"]["validated_up_to"], s_)
+        # ---- verdicts for larger S
+        jobs = [(os.path.join(scratch, "cnt_%d_%s" % (s_, mask)), s_, prog, [0] + work_pcs, fail) for s_ in range(smax_val + 1, sbound + 1)]
+        with ThreadPoolExecutor(max_workers=5) as tp:
+            for s_, v in tp.map(counter_job, jobs):
+                out["verdicts"][(s_, mask)] = v
+                out["coverage"]["instances"]["S=C=%d,mask=%s" % (s_, mask)] = "%s (%d states)" % (v["error"] or "ok", v["distinct"])
+                out["coverage"]["states"] += v["distinct"]
+                ctx.count("counter_instances")
+                if v["error"] == "tlc_failed":
+                    ctx.harness_errors.append(dict(clause="counter_tlc", case=s_, tb=v["raw"]))
+    return out
+
+
 def tlc_job(job):
     d, S_, C_, prog, faults, abort = job
     tla.write_instance(d, S_, C_, prog, faults, abort)
@@ -648,6 +716,10 @@ def main(tier, seed, t0):
         cov["tlc"] = dict(instances=len(tlc_res), distinct_states=tlc_states, states_generated=tlc_trans,
                           verdicts={"S=%d,C=%d,mask=%s" % k: (v["error"] or "ok") for k, v in sorted(verdicts.items())})
 
+        # ------------------------------------------------------------------ layer 3b: counter abstraction for larger S = C
+        counter = counter_layer(tier, progs, scratch, ctx)
+        cov["counter_abstraction"] = counter["coverage"]
+
         # ------------------------------------------------------------------ layer 1 results
         reach = {}
         nlay = 0
@@ -665,6 +737,18 @@ def main(tier, seed, t0):
         for (s_, c_), (n, example) in sorted(reach.items()):
             for mask in (True, False):
                 v = verdicts.get((s_, c_, mask))
+                if v is None and s_ == c_ and (s_, mask) in counter["verdicts"]:
+                    cv = counter["verdicts"][(s_, mask)]
+                    if cv["error"] is None:
+                        judged["ok_by_counter_abstraction"] = judged.get("ok_by_counter_abstraction", 0) + n
+                    else:
+                        judged["violating"] += n
+                        ctx.violation("TLC on the counter abstraction (validated against the full model for S <= %d): %s for %d stripes on %d "
+                                      "workers (mask=%s); first reached by (rows, grid, cores, stripes) = %r; %d swept layouts map to this instance" % (
+                                          counter["coverage"]["validated_up_to"], cv["error"], s_, c_, mask, example, n),
+                                      "counter_%s|instance(S=%d,C=%d,mask=%s)" % (cv["error"].replace(" ", "_"), s_, c_, mask), clause="layout",
+                                      case=dict(config=list(example)))
+                    continue
                 if v is None:
                     judged["not_covered"] += n
                     continue
@@ -787,7 +871,7 @@ def main(tier, seed, t0):
     ctx.nontrivial_counted = cov["schedule_exploration"]["executions"]
     ctx.samples = cov["conformance"].get("samples", [])[:3] + [dict(schedule=r["outcomes"][0]["schedule"], inst=inst_key(r["inst"]), mode=r["mode"])
                                                                for r in results[:3]]
-    extra = dict(states=cov["tlc"]["distinct_states"] + cov["conformance"]["graph_states"],
+    extra = dict(states=cov["tlc"]["distinct_states"] + cov["conformance"]["graph_states"] + cov["counter_abstraction"]["states"],
                  transitions=cov["tlc"]["states_generated"] + cov["conformance"]["graph_edges"],
                  traces_validated_against_impl=cov["conformance"]["paths_replayed"] + ctx.counters.get("tlc_counterexamples_confirmed_on_code", 0)
                  + cov.get("real_process", {}).get("schedules_replayed", 0),
